@@ -22,7 +22,7 @@ RULE = ("corpora: Hypothesis corpora of 1..4/8 sentences (<=8/14 tokens, all sha
         "nt and edge order, secedge noise, id styles, utf-8/iso-8859-1), plain or .gz, reader options drawn from the documented set. The reader must yield "
         "one well-formed tree per sentence in order, equal to model + independent expectation function of the options; quiet => no output. "
         "bracket_strings: exhaustively every string over {( ) blank a b} up to length 7/9 x emptypos: a hand-written recogniser decides trees* error?; the "
-        "reader must yield the same trees and raise ValueError exactly for ill-formed input. bracket_edits: single-character edits of well-formed files. "
+        "reader must yield the same trees and raise ValueError exactly for ill-formed input. bracket_edits: single-character edits of well-formed files; bracket_random: random strings up to 40 pieces over a richer alphabet, same oracle. "
         "Non-trivial (corpora) = >=2 sentences or discontinuous/unary-root/one-token shape or a non-default option or a special character.")
 ASSUMPTIONS = ["independent encoders in vlib/codecs_tree.py; expectation functions in checks/C01.py derived from the option documentation",
                "not generated because the format cannot carry it: whitespace/control characters, empty fields, export words #ddd/#BOS/#EOS, all-digit export edge labels, "
@@ -680,3 +680,19 @@ def gen_edits(ctx):
 
 UNITS.append(Unit("bracket_strings", gen_strings, check_string, shards=(8, 16)))
 UNITS.append(Unit("bracket_edits", gen_edits, check_string, shards=(2, 8)))
+
+
+def gen_random_strings(ctx):
+    """longer random strings over a richer alphabet (tabs, newlines, non-ASCII, longer tokens), same oracle as bracket_strings"""
+    alphabet = st.sampled_from(["(", ")", "(", ")", " ", "\n", "\t", "a", "b", "NP", "ä", "-", "x1", "  "])
+    strategy = st.fixed_dictionaries({"text": st.lists(alphabet, max_size=40).map("".join), "emptypos": st.booleans()})
+
+    def body(case):
+        ntrees, ill = check_string(case)
+        ctx.count(key=case, nontrivial=(ntrees > 0 or ill), classes=["random-strings:trees>=1" if ntrees else ("random-strings:ill-formed" if ill else "random-strings:no-group")])
+        if ntrees >= 2:
+            ctx.sample(case, cap=1)
+    ctx.hyp(strategy, body, max_examples=2500 if ctx.tier == "quick" else 20000)
+
+
+UNITS.append(Unit("bracket_random", gen_random_strings, check_string, shards=(2, 8)))
